@@ -4,6 +4,17 @@ pub open spec fn has_edge(es: Seq<EdgeV>, a: int, b: int) -> bool {
     exists|e: int| 0 <= e < es.len() && #[trigger] es[e].src == a && es[e].dst == b
 }
 
+/// a path: non-empty sequence of nodes, each joined to the next by an edge (a single node is a path)
+pub open spec fn is_path(es: Seq<EdgeV>, p: Seq<int>) -> bool {
+    &&& p.len() >= 1
+    &&& forall|i: int| 0 <= i < p.len() - 1 ==> #[trigger] has_edge(es, p[i], p[i + 1])
+}
+
+/// b is reachable from a along edges (every node reaches itself)
+pub open spec fn reach(es: Seq<EdgeV>, a: int, b: int) -> bool {
+    exists|p: Seq<int>| #[trigger] is_path(es, p) && p[0] == a && p.last() == b
+}
+
 /// a dependency chain: non-empty sequence of functions, each joined to the next by an edge
 pub open spec fn is_chain<N>(g: &Dag<N, Edge, FnIdInner>, c: Seq<int>) -> bool {
     &&& c.len() >= 1
